@@ -132,12 +132,71 @@ def eval_case(body: list[ast.stmt], space: frozenset) -> frozenset:
     return result
 
 
-def _cases(fn: ast.AST) -> dict[int, list[ast.stmt]]:
+def _specialise(body: list[ast.stmt], env: dict[str, ast.expr], tables: dict[str, dict]) -> list[ast.stmt]:
+    """Partial evaluation of a case body for one key of a literal table: `T[p]` -> the row, literal tuple unpacking
+    bound into the environment, constant conditional expressions / if statements folded."""
+    import copy
+
+    env = dict(env)
+
+    class Sub(ast.NodeTransformer):
+        def visit_Subscript(self, node: ast.Subscript):
+            self.generic_visit(node)
+            if isinstance(node.value, ast.Name) and node.value.id in tables and isinstance(node.slice, ast.Constant) and node.slice.value in tables[node.value.id]:
+                return copy.deepcopy(tables[node.value.id][node.slice.value])
+            return node
+
+        def visit_Name(self, node: ast.Name):
+            if isinstance(node.ctx, ast.Load) and node.id in env:
+                return copy.deepcopy(env[node.id])
+            return node
+
+        def visit_IfExp(self, node: ast.IfExp):
+            self.generic_visit(node)
+            if isinstance(node.test, ast.Constant) and isinstance(node.test.value, bool):
+                return node.body if node.test.value else node.orelse
+            return node
+
+    def run(stmts: list[ast.stmt]) -> list[ast.stmt]:
+        out: list[ast.stmt] = []
+        for st in stmts:
+            st = Sub().visit(copy.deepcopy(st))
+            if isinstance(st, ast.Assign) and len(st.targets) == 1 and isinstance(st.targets[0], ast.Tuple) and isinstance(st.value, ast.Tuple) and len(st.targets[0].elts) == len(st.value.elts) and all(isinstance(t_, ast.Name) for t_ in st.targets[0].elts):
+                for t_, v_ in zip(st.targets[0].elts, st.value.elts):
+                    env[t_.id] = v_
+                continue
+            if isinstance(st, ast.If) and isinstance(st.test, ast.Constant) and isinstance(st.test.value, bool):
+                out.extend(run(st.body if st.test.value else st.orelse))
+                continue
+            if isinstance(st, ast.If):
+                st.body, st.orelse = run(st.body), run(st.orelse)
+            out.append(ast.fix_missing_locations(st))
+        return out
+
+    return run(body)
+
+
+def _cases(fn: ast.AST, module_assigns: dict[str, ast.AST] | None = None) -> dict[int, list[ast.stmt]]:
     out = {}
+    module_assigns = module_assigns or {}
     for m in [n for n in walk_local(fn) if isinstance(n, ast.Match) and unparse(n.subject) == "op.predicate.value.data"]:
         for c in m.cases:
-            if isinstance(c.pattern, ast.MatchValue) and isinstance(c.pattern.value, ast.Constant):
-                out[c.pattern.value.value] = c.body
+            pats = c.pattern.patterns if isinstance(c.pattern, ast.MatchOr) else [c.pattern]
+            if all(isinstance(p_, ast.MatchValue) and isinstance(p_.value, ast.Constant) for p_ in pats) and c.guard is None:
+                for p_ in pats:
+                    out[p_.value.value] = c.body  # type: ignore[attr-defined]
+            elif isinstance(c.pattern, ast.MatchAs) and c.pattern.pattern is None and c.pattern.name is None and c.guard is None:
+                continue  # default case
+            elif isinstance(c.pattern, ast.MatchAs) and c.pattern.pattern is None and c.pattern.name is not None and isinstance(c.guard, ast.Compare) and len(c.guard.ops) == 1 and isinstance(c.guard.ops[0], ast.In) and unparse(c.guard.left) == c.pattern.name and isinstance(c.guard.comparators[0], ast.Name) and isinstance(module_assigns.get(c.guard.comparators[0].id), ast.Dict):
+                tname = c.guard.comparators[0].id
+                d_ = module_assigns[tname]
+                if not all(isinstance(k_, ast.Constant) and isinstance(k_.value, int) for k_ in d_.keys):  # type: ignore[union-attr]
+                    raise AnalysisError(f"case `{unparse(c.pattern)} if {unparse(c.guard)}`: keys of {tname} are not integer literals")
+                table = {k_.value: v_ for k_, v_ in zip(d_.keys, d_.values)}  # type: ignore[union-attr]
+                for key in table:
+                    out[key] = _specialise(c.body, {c.pattern.name: ast.Constant(key)}, {tname: table})
+            else:
+                raise AnalysisError(f"case `{unparse(c.pattern)}`{' if ' + unparse(c.guard) if c.guard is not None else ''} of the predicate dispatch is not a literal predicate number (nor a guarded lookup in a literal table)")
     return out
 
 
@@ -185,7 +244,7 @@ def check_cmp(idx: Index, rep: Report) -> None:
         t = unparse(f.node)
         if "lhs, rhs = cast_operands_to_regs(rewriter, op)" not in t:
             raise AnalysisError(f"{f.fq}: operand binding not recognised")
-        cases = _cases(f.node)
+        cases = _cases(f.node, getattr(f.module, "assigns", {}))
         kind = "cmpi" if "Cmpi" in q else "cmpf"
         for k, mn in enumerate(names):
             inst = f"{kind}:{k}:{mn}"
